@@ -70,6 +70,7 @@ class Own:
         self.heapk = {}           # site -> set(atoms): the keys of a dict allocated at site (item reads do not return them)
         self.sites = {}           # site -> description
         self.obligations = {}     # (func, line, what) -> bool (True = discharged)
+        self.exempt = set()       # stores into write-only attributes (not frame obligations; listed in the evidence)
         self.methods = None
         self.funcs = {}
         self.memo = {}
@@ -133,6 +134,7 @@ class Own:
         if self.methods is not None:
             return
         self.methods, self.classes = {}, {}
+        self.attr_loads, self.str_consts, self.attr_stores = set(), set(), set()
         for dirpath, dirs, fs in os.walk(self.repo.root):
             dirs[:] = [d for d in dirs if d not in (".git", "test", "tests", "__pycache__", "docs", "examples")]
             for f in fs:
@@ -143,6 +145,11 @@ class Own:
                     m = self.repo.module(rel)
                 except Exception:
                     continue
+                for n in ast.walk(m.tree):
+                    if isinstance(n, ast.Attribute):
+                        (self.attr_loads if isinstance(n.ctx, ast.Load) else self.attr_stores).add(n.attr)
+                    elif isinstance(n, ast.Constant) and isinstance(n.value, str):
+                        self.str_consts.add(n.value)
                 for n in m.tree.body:
                     if isinstance(n, ast.ClassDef):
                         self.classes.setdefault(n.name, []).append((rel, n))
@@ -157,6 +164,13 @@ class Own:
                                                 self.methods.setdefault(t.id, []).append((rel, n, st2))
                     elif isinstance(n, (ast.FunctionDef, ast.AsyncFunctionDef)):
                         self.funcs.setdefault(n.name, []).append((rel, None, n))
+
+    def write_only(self, attr):
+        """an attribute that the repository (tests aside) only ever assigns (`x.a = e`, `x.a += e`) and never reads, not
+        even by name through getattr / __slots__: whatever is stored in it cannot influence any behaviour, so storing
+        an immutable value there is not a mutation a caller could observe (statistics counters)"""
+        self.index()
+        return attr not in self.attr_loads and attr not in self.str_consts and attr.lstrip("_") not in self.str_consts
 
     # ------------------------------------------------------------------ heap
     def alloc(self, site, content=(), what=""):
@@ -254,6 +268,10 @@ class Own:
             ret = ret or {IMM}
             if fnode.returns is not None and ast.unparse(fnode.returns) in IMM_ANNOTATIONS:
                 ret = self.I(ret)
+            if nonimm(ret) and any(ast.unparse(d).split("(")[0].split(".")[-1] in ("lru_cache", "cache", "cached_property")
+                                   for d in fnode.decorator_list):
+                # a memoised function hands the SAME object to every caller: what it returns is shared state, never the caller's own
+                ret = ret | {BOR}
             self.memo[sig] = set(ret)
             return ret
         finally:
@@ -302,7 +320,9 @@ class _Frame:
             cur = self.ev(load, env)
             if nonimm(rhs):      # list += iterable / set |= set ... mutate in place; numbers and bytes rebind
                 o.mutate(cur, self.key, s, "in-place operator on %s" % ast.unparse(s.target), o.content(rhs))
-            if not isinstance(s.target, ast.Name):
+            if isinstance(s.target, ast.Attribute) and not nonimm(rhs) and o.write_only(s.target.attr):
+                o.exempt.add("%s:%d write-only attribute %s" % (self.key, s.lineno, s.target.attr))
+            elif not isinstance(s.target, ast.Name):
                 base = self.ev(s.target.value, env)
                 o.mutate(base, self.key, s, "store into %s" % ast.unparse(s.target.value), cur | rhs)
             else:
@@ -394,7 +414,10 @@ class _Frame:
             kv = self.ev(t.slice, env)
             o.mutate(self.ev(t.value, env), self.key, node, "item store into %s" % ast.unparse(t.value), set(v), keys=set(kv))
         elif isinstance(t, ast.Attribute):
-            o.mutate(self.ev(t.value, env), self.key, node, "attribute store %s" % ast.unparse(t), v)
+            if not nonimm(v) and o.write_only(t.attr):
+                o.exempt.add("%s:%d write-only attribute %s" % (self.key, getattr(node, "lineno", 0), t.attr))
+            else:
+                o.mutate(self.ev(t.value, env), self.key, node, "attribute store %s" % ast.unparse(t), v)
         elif isinstance(t, ast.Starred):
             self.assign(t.value, v, env, node)
 
